@@ -117,10 +117,17 @@ def run(tier):
             if amp and plan['formatted'] and plan['mode'] == 'pieces' and plan['order'].index('pvp') > plan['order'].index('signal'):
                 plan['order'] = ['pvp'] + [x for x in plan['order'] if x != 'pvp']   # AmpSF must be known before formatted writes (documented)
             plan['permute_pvp_fields'] = rng.random() < 0.3
-            case = {'fmt': fmt, 'sizes': sizes, 'amp_sf': amp, 'support': sup, 'text': text, 'target': target, 'plan': plan, 'template': template}
-            seen.add((fmt, min(nch, 3), amp, min(nsup, 2), text is not None and not text.isascii(), target, plan['mode'], plan['formatted']))
+            # header markings: mostly the defaults, sometimes long enough that the header text exceeds the first-guess XML offset of 1024 (retry path)
+            release = rng.choice(['UNRESTRICTED'] * 5 + ['APPROVED FOR TEST USE', ('LONG RELEASE TEXT ' * rng.randint(50, 90)).strip()])
+            classification = rng.choice(['UNCLASSIFIED'] * 5 + ['UNCLASSIFIED//TEST DATA ONLY', ('UNCLASSIFIED//' + 'HANDLING CAVEAT ' * rng.randint(48, 80)).strip()])
+            case = {'fmt': fmt, 'sizes': sizes, 'amp_sf': amp, 'support': sup, 'text': text, 'target': target, 'plan': plan, 'template': template,
+                    'release_info': release, 'classification': classification}
+            seen.add((fmt, min(nch, 3), amp, min(nsup, 2), text is not None and not text.isascii(), target, plan['mode'], plan['formatted'],
+                      len(release) > 600, len(classification) > 600))
             try:
                 meta = cphdgen.build_meta(fmt, sizes, amp, sup, text, template)
+                meta.CollectionID.ReleaseInfo = release
+                meta.CollectionID.Classification = classification
             except Exception as e:
                 stats['meta_errors'] = stats.get('meta_errors', 0) + 1
                 continue
@@ -139,6 +146,8 @@ def run(tier):
                 continue
             stats['files'] = stats.get('files', 0) + 1
             problems, kv = cphdgen.check_layout(buf, KIND)
+            if problems:
+                case = dict(case, file_bytes=len(buf), file_head_hex=buf[:1536].hex())      # the replay carries the head of the file itself
             for p in problems:
                 fails.append({'kind': 'layout', 'msg': 'header does not describe the file: ' + p, 'case': case})
             if kv and not problems:
@@ -146,6 +155,13 @@ def run(tier):
                 for name in ['SUPPORT', 'PVP', 'SIGNAL']:
                     if name + '_BLOCK_BYTE_OFFSET' in kv and g(name + '_BLOCK_BYTE_OFFSET') % 64 != 0:
                         fails.append({'kind': 'layout', 'msg': f'{name} block offset {g(name + "_BLOCK_BYTE_OFFSET")} is not 64-byte aligned', 'case': case})
+                if kv.get('CLASSIFICATION') != classification or kv.get('RELEASE_INFO') != release:
+                    fails.append({'kind': 'layout', 'msg': 'header CLASSIFICATION / RELEASE_INFO differ from CollectionID', 'case': case})
+                if g('XML_BLOCK_BYTE_OFFSET') != 1024:
+                    stats['retry_layouts'] = stats.get('retry_layouts', 0) + 1
+                    for nm, v in (('retry_by_release_info', release), ('retry_by_classification', classification)):
+                        if len(v) > 600:
+                            stats[nm] = stats.get(nm, 0) + 1
                 ss = str(g('SUPPORT_BLOCK_SIZE')) if 'SUPPORT_BLOCK_SIZE' in kv else 'N'
                 hend = cphdgen.parse_header(buf)[3]
                 jobs.append((case, kv, drv.ask(f'cphd layout {g("XML_BLOCK_BYTE_OFFSET")} {g("XML_BLOCK_SIZE")} {ss} {g("PVP_BLOCK_SIZE")} {g("SIGNAL_BLOCK_SIZE")}'),
